@@ -55,6 +55,26 @@ EnvsOf(frag) == IF frag = "int" THEN IntEnvs ELSE FltEnvs
 FragTy(frag) == IF frag = "int" THEN "long" ELSE "double"
 
 (***************************************************************************)
+(* The REPRESENTATION of a constant is an input dimension of its own: the  *)
+(* same number may sit in the tree as a Python int / float or as a numpy   *)
+(* scalar (coefficients read out of arrays are numpy.int64 / numpy.float64 *)
+(* / numpy.int32 / numpy.float32 objects).  A constant of the model is its *)
+(* VALUE: Eval, CTy and the verdict do not depend on the representation,   *)
+(* so the statement demands that the generated C text denotes the same     *)
+(* value whichever way the constant was built.  The generator emits every  *)
+(* constant-bearing tree once per representation of RepsFor; the driver    *)
+(* builds all int / float constants of the tree in that representation.    *)
+(*    "py"   int / float            "np64"  numpy.int64 / numpy.float64    *)
+(*    "np32" numpy.int32 / numpy.float32 (exact on the model's dyadics)    *)
+(* bool / numpy.bool_ / Fraction constants have no C literal: outside the  *)
+(* fragment in every representation (CTy = "bad").                         *)
+(***************************************************************************)
+Reps == {"py", "np64", "np32"}
+HasNumConst(e) == \E s \in SubExprs(e) : s.t = "Const" /\ s.v.k \in {"int", "flt"}
+\* a tree without numeric constants is the same object in every representation
+RepsFor(e) == IF HasNumConst(e) THEN Reps ELSE {"py"}
+
+(***************************************************************************)
 (* C typing of the translation of a tree, per ISO C's usual arithmetic     *)
 (* conversions; "bad" = no C operator with the Python meaning exists at    *)
 (* these operand types.  Variables, calls, subscripts, attribute look-ups  *)
@@ -140,13 +160,19 @@ InRange(e, env) ==
 (*         when it disagrees with Eval the oracle is in doubt -> SKIP-O)   *)
 (***************************************************************************)
 \* (the fragment test is the caller's: it does not depend on the environment)
-JudgeEnv(e, frag, env, got, pv) ==
+\* rep: the representation the tree's constants were built in.  Eval is the meaning
+\* of Python's arithmetic; with numpy scalars in the tree the evaluator computes in
+\* numpy's (ValueError for a negative integer power, ~ of a numpy.bool_ is "not",
+\* fixed-width wrap-around): where its value then departs from Eval the statement's
+\* "evaluator's value" is not the model's and nothing is decided (plain SKIP, not an
+\* oracle doubt).
+JudgeEnvR(e, frag, env, got, pv, rep) ==
     LET exp == Eval(e, env) IN
     IF IsUnrep(exp) \/ IsErr(exp) THEN "SKIP"               \* the evaluator has no value
     ELSE IF ~IsNum(exp) THEN "SKIP"
     ELSE IF ~InRange(e, env) THEN "SKIP"
     ELSE IF IsUnrep(pv) THEN "SKIP"
-    ELSE IF ~(IsNum(pv) /\ ValEq(exp, pv)) THEN "SKIP-O"
+    ELSE IF ~(IsNum(pv) /\ ValEq(exp, pv)) THEN (IF rep = "py" THEN "SKIP-O" ELSE "SKIP")
     ELSE IF IsUnrep(got) THEN "SKIP"
     ELSE IF IsErr(got) THEN "c-trap-instead-of-value"
     \* an integer program whose meaning is a non-integral float (x ** -1): not an
@@ -154,17 +180,19 @@ JudgeEnv(e, frag, env, got, pv) ==
     ELSE IF frag = "int" /\ exp.d # 1 THEN "SKIP"
     ELSE IF ValEq(exp, got) THEN "OK" ELSE "wrong-value"
 
+JudgeEnv(e, frag, env, got, pv) == JudgeEnvR(e, frag, env, got, pv, "py")
+
 JudgeC(e, frag, env, got, pv) ==
     IF ~CExpressible(e, frag) THEN "SKIP" ELSE JudgeEnv(e, frag, env, got, pv)
 
 \* all environments in one pass: [bad |-> first failing clause or "", env |-> its index,
 \* skip |-> number of SKIP / SKIP-O environments, skipo |-> number of SKIP-O]
-JudgeAll(e, frag, r, pv) ==
+JudgeAllR(e, frag, r, pv, rep) ==
     LET envs == EnvsOf(frag)
         RECURSIVE Go(_, _)
         Go(i, acc) ==
             IF i > Len(envs) THEN acc
-            ELSE LET v == JudgeEnv(e, frag, envs[i], r[i], pv[i]) IN
+            ELSE LET v == JudgeEnvR(e, frag, envs[i], r[i], pv[i], rep) IN
                  Go(i + 1,
                     IF v = "OK" THEN acc
                     ELSE IF v = "SKIP" THEN [acc EXCEPT !.skip = @ + 1]
@@ -172,4 +200,5 @@ JudgeAll(e, frag, r, pv) ==
                     ELSE IF acc.bad = "" THEN [acc EXCEPT !.bad = v, !.env = i] ELSE acc)
         zero == [bad |-> "", env |-> 0, skip |-> 0, skipo |-> 0]
     IN IF ~CExpressible(e, frag) THEN [zero EXCEPT !.skip = Len(envs)] ELSE Go(1, zero)
+JudgeAll(e, frag, r, pv) == JudgeAllR(e, frag, r, pv, "py")
 =============================================================================
